@@ -65,9 +65,12 @@ type InheritCfg struct {
 	// TopBlockFn: the template directly below the root assigns block('a') to a
 	// variable at its top level (1: plainly, 2: under an if, 3: inside a
 	// capture under an if); the root prints the variable after its layout.
-	TopBlockFn int  `json:"top_block_fn,omitempty"`
-	AliasSelf  bool `json:"alias_self,omitempty"`
-	AliasSwap  bool `json:"alias_swap,omitempty"`
+	TopBlockFn int `json:"top_block_fn,omitempty"`
+	// RootUse: the root of the chain (which extends nothing) imports template
+	// "u" as well: what it uses ranks below its own blocks.
+	RootUse   bool `json:"root_use,omitempty"`
+	AliasSelf bool `json:"alias_self,omitempty"`
+	AliasSwap bool `json:"alias_swap,omitempty"`
 }
 
 var blockNames = []string{"a", "b", "c", "d"}
@@ -192,6 +195,9 @@ func BuildInherit(c *InheritCfg) *m.Program {
 				}
 			}
 		} else {
+			if c.RootUse {
+				t.Body = append(t.Body, &m.N{K: "use", X: m.EStr("u")})
+			}
 			t.Body = append(t.Body, m.NText("["))
 			for ni := 0; ni < c.Names; ni++ {
 				name := blockNames[ni]
@@ -219,7 +225,10 @@ func BuildInherit(c *InheritCfg) *m.Program {
 		}
 		p.Tpls = append(p.Tpls, t)
 	}
-	if c.UseAt >= 0 || c.UseLevels != 0 {
+	if c.RootUse && c.UseNames == 0 {
+		c.UseNames = 1
+	}
+	if c.UseAt >= 0 || c.UseLevels != 0 || c.RootUse {
 		u := &m.Tpl{Name: "u"}
 		for ni := 0; ni < c.Names; ni++ {
 			if c.UseNames&(1<<uint(ni)) != 0 {
@@ -286,6 +295,7 @@ func GenInherit(t *rapid.T) *InheritCfg {
 	c.BlockFn = rapid.Bool().Draw(t, "blockfn")
 	c.Outside = rapid.Bool().Draw(t, "outside")
 	c.NestOver = rapid.Bool().Draw(t, "nestover")
+	c.RootUse = rapid.IntRange(0, 4).Draw(t, "rootuse") == 0
 	if c.L >= 2 && rapid.IntRange(0, 3).Draw(t, "topblockfn") == 0 {
 		c.TopBlockFn = rapid.IntRange(1, 3).Draw(t, "tbf")
 	}
